@@ -106,6 +106,21 @@ struct Explorer {
 				std::vector<uint8_t> buf; buf.resize(std::size_t(len));
 				st->Read(buf.data(), buf.size());
 				val += " hash=" + std::to_string(mc::fnv(buf.data(), buf.size()));
+				if (judgeExtent && extentProblem.empty()) {
+					// a refused call on the member stream leaves it as usable as before: a seek across the end is refused, and the
+					// stream then still delivers exactly its own bytes and nothing behind them
+					st->Seek(0);
+					bool refused = false;
+					try { st->SeekForward(len + 1); } catch (const std::exception&) { refused = true; }
+					if (!refused) extentProblem = "SeekForward(length + 1) on the member stream was accepted";
+					else if (st->Position() != 0) extentProblem = "a refused SeekForward left the member stream at position " + std::to_string(st->Position());
+					else {
+						std::vector<uint8_t> again(std::size_t(len) + 16, 0xEE);
+						std::size_t got = st->ReadPartial(again.data(), again.size());
+						if (got != len || std::memcmp(again.data(), buf.data(), std::size_t(len)) != 0) extentProblem = "after a refused seek the member stream delivered " + std::to_string(got) + " bytes, it has " + std::to_string(len);
+						else ctx.count("extent/streams-usable-after-a-refused-seek");
+					}
+				}
 				if (judgeExtent && op.kind == kOpenStreamI) {
 					uint64_t start; std::vector<uint64_t> lens;
 					if (recordedExtent(f, op.idx, start, lens)) {
